@@ -3,6 +3,7 @@
 use std::cell::RefCell;
 use std::net::{IpAddr, Ipv4Addr, SocketAddr};
 use std::rc::Rc;
+use std::sync::Arc;
 use std::time::Duration;
 
 use datacake_rpc::{Body, Channel, DataView, ErrorCode, Handler, Request, RpcClient, RpcService, Server, ServiceRegistry, Status};
@@ -83,9 +84,26 @@ pub struct Tiny2 {
 #[archive(check_bytes)]
 pub struct Nothing;
 
+/// a message whose fields are reference counted: the sender keeps the pointers and puts them into
+/// message after message, and one message names the same pointer more than once
+#[repr(C)]
+#[derive(Serialize, Deserialize, Archive, PartialEq, Debug, Clone)]
+#[archive(check_bytes)]
+pub struct SharedMsg {
+    pub label: Arc<String>,
+    pub again: Arc<String>,
+    pub parts: Vec<Arc<Vec<u8>>>,
+    pub rev: u32,
+}
+
 pub struct EchoSvc {
     /// every invocation: the value the handler observed
     pub seen: Rc<RefCell<Vec<Echo>>>,
+    /// every invocation of the shared-pointer handler: what it observed, or why the frame it was
+    /// handed is not a valid archive of the message type
+    pub seen_shared: Rc<RefCell<Vec<Result<SharedMsg, String>>>>,
+    /// the label the handler keeps and re-uses in its replies (server-side shared pointer)
+    pub held: Rc<RefCell<Option<Arc<String>>>>,
 }
 // single-threaded simulation: the handler log is only touched from the one simulation thread
 unsafe impl Send for EchoSvc {}
@@ -99,6 +117,33 @@ impl RpcService for EchoSvc {
         r.add_handler::<Tiny2>();
         r.add_handler::<Nothing>();
         r.add_handler::<Body>();
+        r.add_handler::<SharedMsg>();
+    }
+}
+
+// the frame is validated before anything is read through it: a frame that passed the checksum but
+// is not a valid archive of the message is recorded, not dereferenced
+#[datacake_rpc::async_trait]
+impl Handler<SharedMsg> for EchoSvc {
+    type Reply = SharedMsg;
+    async fn on_message(&self, msg: Request<SharedMsg>) -> Result<SharedMsg, Status> {
+        let frame = msg.as_bytes();
+        let body = &frame[..frame.len().saturating_sub(4)];
+        if let Err(e) = rkyv::check_archived_root::<SharedMsg>(body) {
+            self.seen_shared.borrow_mut().push(Err(format!("{}-byte body is not a valid archive: {e}", body.len())));
+            return Err(Status::internal("malformed"));
+        }
+        let v: SharedMsg = msg.deserialize_view().map_err(Status::internal)?;
+        self.seen_shared.borrow_mut().push(Ok(v.clone()));
+        let mut held = self.held.borrow_mut();
+        let label = match held.as_ref() {
+            Some(l) if **l == *v.label => l.clone(),
+            _ => {
+                *held = Some(Arc::new((*v.label).clone()));
+                held.as_ref().unwrap().clone()
+            },
+        };
+        Ok(SharedMsg { label: label.clone(), again: label, parts: v.parts.clone(), rev: v.rev.wrapping_add(1) })
     }
 }
 
@@ -390,7 +435,7 @@ impl Check for C12 {
         "E2: server host (real datacake-rpc Server + echo service that logs every handler invocation) and client host (real RpcClient, plus a raw hyper HTTP/2 client for damaged requests and a same-URI impostor service for damaged replies) over simulated TCP; frame corruption enumerated at DataView::using, the decision point both directions share"
     }
     fn rule(&self) -> &'static str {
-        "Cases: seeded message values (fixed-size struct, strings, byte vectors empty..max, nested options and vectors, one value in eight with a flat list of 1500-6000 small structs; a quarter make the handler fail with a seeded error code and message). Per value: (1) through the real client and server (plus raw unframed bodies of 0-5 and 9 bytes, a message and a reply of size zero, and three small messages of 3, 5 and 2 bytes, whose archived forms have alignment below 4 and lengths that are not multiples of 4, answered by a handler that increments every component): handler-observed value == sent, reply == handler's, error code and message identical, exactly one invocation; (2) at DataView::using for the request frame, the reply frame and a Status frame: EVERY single-bit flip (frames <= 1 KiB; 4096 seeded flips above), EVERY truncation length (<= 2 KiB; 1024 seeded above), extensions by 1..16 bytes, and EVERY length below size_of(archived root) as an all-zero and a random body with a CORRECT checksum; (3) a seeded sample of those damaged frames is sent through the network - requests by a raw HTTP/2 POST to the real URI, replies by an impostor service on the same URI - with latency and an optional link hold; (4) up to six valid request frames and six valid reply frames are delivered in 2-9 pieces at seeded cut points without a declared body length (a streaming peer) and must be observed unchanged. Oracle: damaged/short frames are refused (Err / InvalidPayload), no handler runs on them, nothing panics (debug assertions and overflow checks are on). Non-trivial = every case (each runs thousands of corruptions). Distinct = hash of the value seed and sizes."
+        "Cases: seeded message values (fixed-size struct, strings, byte vectors empty..max, nested options and vectors, one value in eight with a flat list of 1500-6000 small structs; a quarter make the handler fail with a seeded error code and message). Per value: (1) through the real client and server (plus raw unframed bodies of 0-5 and 9 bytes, a message and a reply of size zero, and three small messages of 3, 5 and 2 bytes, whose archived forms have alignment below 4 and lengths that are not multiples of 4, answered by a handler that increments every component; and a message whose fields are reference-counted pointers the sender keeps and names in three consecutive messages, twice inside each, with another message in between, answered from a pointer the handler keeps): handler-observed value == sent, reply == handler's, error code and message identical, exactly one invocation; (2) at DataView::using for the request frame, the reply frame and a Status frame: EVERY single-bit flip (frames <= 1 KiB; 4096 seeded flips above), EVERY truncation length (<= 2 KiB; 1024 seeded above), extensions by 1..16 bytes, and EVERY length below size_of(archived root) as an all-zero and a random body with a CORRECT checksum; (3) a seeded sample of those damaged frames is sent through the network - requests by a raw HTTP/2 POST to the real URI, replies by an impostor service on the same URI - with latency and an optional link hold; (4) up to six valid request frames and six valid reply frames are delivered in 2-9 pieces at seeded cut points without a declared body length (a streaming peer) and must be observed unchanged. Oracle: damaged/short frames are refused (Err / InvalidPayload), no handler runs on them, nothing panics (debug assertions and overflow checks are on). Non-trivial = every case (each runs thousands of corruptions). Distinct = hash of the value seed and sizes."
     }
     fn assumptions(&self) -> Vec<String> {
         vec![
@@ -497,6 +542,8 @@ impl Check for C12 {
 
         // (1) + (3) through the network
         let seen: Rc<RefCell<Vec<Echo>>> = Rc::new(RefCell::new(Vec::new()));
+        let seen_shared: Rc<RefCell<Vec<Result<SharedMsg, String>>>> = Rc::new(RefCell::new(Vec::new()));
+        let held: Rc<RefCell<Option<Arc<String>>>> = Rc::new(RefCell::new(None));
         let impostor_reply: Rc<RefCell<Vec<u8>>> = Rc::new(RefCell::new(Vec::new()));
         let impostor_cuts: Rc<RefCell<Vec<usize>>> = Rc::new(RefCell::new(Vec::new()));
         let chunk_seed = sc.value_seed ^ 0xC4C4;
@@ -511,19 +558,19 @@ impl Check for C12 {
         let (swap_tx, swap_rx) = tokio::sync::mpsc::unbounded_channel::<(bool, tokio::sync::oneshot::Sender<()>)>();
         let swap_rx = Rc::new(RefCell::new(Some(swap_rx)));
         {
-            let (seen, impostor_reply, impostor_cuts) = (seen.clone(), impostor_reply.clone(), impostor_cuts.clone());
+            let (seen, impostor_reply, impostor_cuts, seen_shared, held) = (seen.clone(), impostor_reply.clone(), impostor_cuts.clone(), seen_shared.clone(), held.clone());
             sim.host("server", move || {
-                let (seen, impostor_reply, swap_rx, impostor_cuts) = (seen.clone(), impostor_reply.clone(), swap_rx.clone(), impostor_cuts.clone());
+                let (seen, impostor_reply, swap_rx, impostor_cuts, seen_shared, held) = (seen.clone(), impostor_reply.clone(), swap_rx.clone(), impostor_cuts.clone(), seen_shared.clone(), held.clone());
                 async move {
                     let server = Server::listen((IpAddr::from(Ipv4Addr::UNSPECIFIED), PORT).into()).await?;
-                    server.add_service(EchoSvc { seen: seen.clone() });
+                    server.add_service(EchoSvc { seen: seen.clone(), seen_shared: seen_shared.clone(), held: held.clone() });
                     let mut rx = swap_rx.borrow_mut().take().expect("server started twice");
                     while let Some((imp, done)) = rx.recv().await {
                         // same service name: adding replaces the handlers for the URI
                         if imp {
                             server.add_service(Impostor { reply: impostor_reply.clone(), cuts: impostor_cuts.clone() });
                         } else {
-                            server.add_service(EchoSvc { seen: seen.clone() });
+                            server.add_service(EchoSvc { seen: seen.clone(), seen_shared: seen_shared.clone(), held: held.clone() });
                         }
                         let _ = done.send(());
                     }
@@ -534,6 +581,7 @@ impl Check for C12 {
         }
         {
             let (values, seen, impostor_reply, net_out, use_impostor, impostor_cuts) = (values.clone(), seen.clone(), impostor_reply.clone(), net_out.clone(), use_impostor.clone(), impostor_cuts.clone());
+            let seen_shared = seen_shared.clone();
             let hold_ms = sc.hold_ms;
             sim.client("client", async move {
                 let addr: SocketAddr = (turmoil::lookup("server"), PORT).into();
@@ -640,6 +688,57 @@ impl Check for C12 {
                     }
                     if r2.as_ref().map(|r| r.x) != Some(t2.x.wrapping_add(1)) {
                         o.violate("C12/small-message-not-delivered-intact", format!("value #{i}: sent {:?}, client got {:?} instead of {}", t2, r2, t2.x.wrapping_add(1)));
+                    }
+                }
+                // (1c) reference-counted fields: the sender keeps its pointers and names them in one
+                // message after another (and twice inside one message), other messages in between
+                for (i, v) in values.iter().enumerate() {
+                    let label = Arc::new(v.rich.text.clone());
+                    let parts: Vec<Arc<Vec<u8>>> = v.rich.blob.chunks(97).take(3).map(|c| Arc::new(c.to_vec())).collect();
+                    for rev in 0..3u32 {
+                        let mut p = parts.clone();
+                        if let Some(first) = parts.first() {
+                            p.push(first.clone());
+                        }
+                        let m = SharedMsg { label: label.clone(), again: label.clone(), parts: p, rev: rev + 10 * i as u32 };
+                        let before = seen_shared.borrow().len();
+                        let res = client.send(&m).await;
+                        if rev == 1 {
+                            // some other message between two uses of the pointers
+                            let _ = client.send(&Tiny2 { x: rev as u16 }).await;
+                        }
+                        let mut o = net_out.borrow_mut();
+                        o.probe("shared_pointer_messages_exchanged");
+                        let calls: Vec<Result<SharedMsg, String>> = seen_shared.borrow()[before..].to_vec();
+                        match calls.as_slice() {
+                            [Ok(seen)] if *seen == m => {},
+                            [Ok(seen)] => o.violate("C12/handler-observed-different-value", format!("value #{i}, use #{rev} of the same reference-counted fields: sent label {:?} rev {}, handler observed label {:?} rev {}", m.label, m.rev, seen.label, seen.rev)),
+                            [Err(e)] => o.violate("C12/handler-given-a-frame-that-is-not-the-message", format!("value #{i}, use #{rev} of the same reference-counted fields: {e}")),
+                            other => o.violate("C12/handler-not-invoked-exactly-once", format!("value #{i}, use #{rev} of the same reference-counted fields: the handler ran {} times", other.len())),
+                        }
+                        if let [Ok(_)] = calls.as_slice() {
+                            match res {
+                                Ok(reply) => {
+                                    let frame = reply.as_bytes();
+                                    let body = &frame[..frame.len().saturating_sub(4)];
+                                    if let Err(e) = rkyv::check_archived_root::<SharedMsg>(body) {
+                                        o.violate("C12/client-given-a-reply-that-is-not-the-message", format!("value #{i}, reply #{rev} built from a pointer the handler keeps: {e}"));
+                                    } else {
+                                        let want = SharedMsg { label: m.label.clone(), again: m.label.clone(), parts: m.parts.clone(), rev: m.rev.wrapping_add(1) };
+                                        match reply.deserialize_view() {
+                                            Ok(r) => {
+                                                let r: SharedMsg = r;
+                                                if r != want {
+                                                    o.violate("C12/client-observed-different-reply", format!("value #{i}, reply #{rev} built from a pointer the handler keeps: label {:?} rev {} instead of {:?} rev {}", r.label, r.rev, want.label, want.rev));
+                                                }
+                                            },
+                                            Err(_) => o.violate("C12/reply-not-deserialisable", format!("value #{i} (shared pointers)")),
+                                        }
+                                    }
+                                },
+                                Err(st) => o.violate("C12/ok-turned-into-error", format!("value #{i} (shared pointers): {:?} {}", st.code, st.message)),
+                            }
+                        }
                     }
                 }
                 // (3c) valid frames delivered in pieces, without a declared body length (a streaming
@@ -768,6 +867,9 @@ impl Check for C12 {
         }
         for (k, v) in no.faults {
             out.fault_n(&k, v);
+        }
+        for (k, v) in no.probes {
+            out.probe_n(&k, v);
         }
         out.nontrivial = true;
         let mut f = Fnv::new();
